@@ -315,6 +315,11 @@ OBJ = [
     ('surface.get_time_shift_motions(nodal, arrays red)', 2, lambda s: surface.get_time_shift_motions(s, AUX['TT'], up_red=AUX['UR'], down_red=AUX['DR'])),
     ('surface.calc_cum_abs_surface_energy', 2, lambda s: surface.calc_cum_abs_surface_energy(s, AUX['TT'], trim=True, start=True, stt=0.2)),
     ('surface.get_time_shift_motions', 2, lambda s: surface.get_time_shift_motions(s, AUX['TT'])),
+    # travel times that need no padding (zero / below half a step) with scalar reductions different from 1: nothing has to be
+    # allocated for the upward wave, so an in-place scaling would land in the record itself
+    ('surface.calc_surface_energy(zero travel time, scalar red)', 2, lambda s: surface.calc_surface_energy(s, 0.0, up_red=0.8, down_red=0.5)),
+    ('surface.calc_cum_abs_surface_energy(sub-step travel time, scalar red)', 2, lambda s: surface.calc_cum_abs_surface_energy(s, s.dt / 8, up_red=0.8, down_red=0.5, nodal=False)),
+    ('surface.get_time_shift_motions(zero travel time array, scalar red)', 2, lambda s: surface.get_time_shift_motions(s, np.array([0.0]), up_red=1.25, down_red=0.5)),
     ('frequency.generate_fa_spectrum', 2, frequency.generate_fa_spectrum),
     ('frequency.generate_fa_spectrum(n_pad=False)', 2, lambda s: frequency.generate_fa_spectrum(s, n_pad=False)),
     ('frequency.calc_fa_spectrum', 2, frequency.calc_fa_spectrum),
